@@ -349,6 +349,16 @@ func (g *gen) buildField(m *Message, f *Field) {
 		g.p("\tvar keys []%s", f.Key.GoType)
 		g.p("\tfor i := 0; i < n; i++ {")
 		g.p("\t\tk := %s", g.symExpr(f.Key, "vhIdx(p+\".k\", i)", g.keyLen))
+		if g.tier != "thorough" {
+			// quick tier: integer keys in a single-varint-length window (values keep their full
+			// domain); the full key domain is the thorough tier's
+			switch f.Key.Kind {
+			case "int32", "int64", "sint32", "sint64":
+				g.p("\t\tvhAssume(k >= -64 && k <= 63)")
+			case "uint32", "uint64":
+				g.p("\t\tvhAssume(k <= 127)")
+			}
+		}
 		g.p("\t\tfor _, o := range keys {")
 		g.p("\t\t\tvhAssume(k != o)")
 		g.p("\t\t}")
@@ -835,37 +845,32 @@ func (g *gen) harnessUnknown(prop string, m *Message) {
 			if f.Card != "repeated" || !f.Packed || !isPackable(f) {
 				continue
 			}
-			g.p("// long packed runs: the payload length needs a 2-byte varint (elements are fixed values)")
+			g.p("// long packed runs: the payload length crosses the 1-byte/2-byte varint boundary (127/128 bytes);")
+			g.p("// elements are fixed one-byte values (or fixed-width), so the run length alone varies")
+			elem := g.concExpr(f, 1)
+			per := 1
+			switch wireKind(f) {
+			case "Fixed32":
+				per = 4
+			case "Fixed64":
+				per = 8
+			default:
+				if f.Kind != "bool" {
+					elem = scalarGo(f) + "(1)"
+				}
+			}
+			base := 128/per - 1
 			g.p("func VH_%s_%s_%s_long() {", prop, n, f.GoName)
 			g.p("\tvhSetLoopBound(400)")
 			g.p("\tx := &%s{}", n)
-			g.p("\tcnt := 127 + vhChoice(\"n\", 3)")
+			g.p("\tcnt := %d + vhChoice(\"n\", 3)", base)
 			g.p("\tfor i := 0; i < cnt; i++ {")
-			g.p("\t\tx.%s = append(x.%s, %s)", f.GoName, f.GoName, g.concExpr(f, 1))
+			g.p("\t\tx.%s = append(x.%s, %s)", f.GoName, f.GoName, elem)
 			g.p("\t}")
 			g.p("\tvh%s_%s(x%s)", prop, n, extraArg(prop, "nil"))
 			g.p("}")
 			g.p("")
 		}
-	}
-	if prop == "C01" {
-		g.p("// round trip through the real protobuf-go entry points (proto.Marshal / proto.Unmarshal)")
-		g.p("func VH_C01_%s__library() {", n)
-		g.p("\tx := &%s{}", n)
-		g.p("\tif vhChoice(\"filled\", 2) == 1 {")
-		g.p("\t\tvhFill_%s(x)", n)
-		g.p("\t}")
-		g.p("\tx.unknownFields = []byte{0x80, 0xa4, 0x3c, 0x07}")
-		g.p("\tdet := vhChoice(\"det\", 2) == 1")
-		g.p("\tout, err := proto.MarshalOptions{Deterministic: det}.Marshal(x)")
-		g.p("\tvhAssert(\"marshal.noerr\", err == nil)")
-		g.p("\ty := &%s{}", n)
-		g.p("\tvhFill_%s(y) // must be reset by Unmarshal", n)
-		g.p("\tuerr := proto.Unmarshal(out, y)")
-		g.p("\tvhAssert(\"unmarshal.noerr\", uerr == nil)")
-		g.p("\tvhAssertEq_%s(\"rt\", x, y)", n)
-		g.p("}")
-		g.p("")
 	}
 	if prop == "C04" {
 		g.p("// the same facts through the real protobuf-go entry points (proto.Size / MarshalOptions.MarshalAppend)")
